@@ -641,7 +641,7 @@ class Engine:
         if c.startswith('"'):
             return lit(eval(c))
         if c.startswith('b"'):
-            return lit(eval(c).decode())
+            return Opaque('bytes', c)          # format_args! templates
         if c == '()':
             return unit()
         if c.startswith('ZeroSized'):
